@@ -395,6 +395,10 @@ def gen_running(rng):
     return specs, start, win, "plain"
 
 
+def now_based_specs(specs):
+    return any((d.get("time") or [""])[0] == "now" for s in specs if s["k"] != "cron" for d in ([s["dt"]] if s["k"] == "once" else [s["start"]] + ([s["end"]] if s.get("end") else [])))
+
+
 def run_part_b(case):
     from ..sim import run_world
 
@@ -428,7 +432,10 @@ def run_part_b(case):
         await w.unload()
         await w.advance(1)
 
-    w, _ = run_world(main, files={"c06.py": script}, legacy=case["legacy"], tick=rng.choice([1e-6, 5e-6, 5e-5]), start=start_utc, keep=True)
+    # injected fault: a wall clock that is being slewed against the monotonic clock (NTP slews up to 500 ppm); the denoted
+    # instants are wall-clock instants, so the oracle is unchanged
+    skew = rng.choice([0.0, 0.0, 1e-4, 5e-4, 2e-5, 3e-6, -1e-4, -5e-4])
+    w, _ = run_world(main, files={"c06.py": script}, legacy=case["legacy"], tick=rng.choice([1e-6, 5e-6, 5e-5]), start=start_utc, keep=True, skew=skew)
     viol = []
     recs = [r for r in w.rec if r["tag"] == "tt"]
     got = [(r["tt"], r["t"]) for r in recs if r["tt"] not in ("startup", "shutdown")]
@@ -439,7 +446,7 @@ def run_part_b(case):
     t0 = state["startup_local"]
     exp = TS.enumerate_between(specs, t0 - dt.timedelta(microseconds=1), state["end_local"], t0, state["sun"])
     # `now`-relative specs are anchored at the trigger start, which we only know to ~0.2 s: compare with tolerance
-    now_based = any((d.get("time") or [""])[0] == "now" for s in specs if s["k"] != "cron" for d in ([s["dt"]] if s["k"] == "once" else [s["start"]] + ([s["end"]] if s.get("end") else [])))
+    now_based = now_based_specs(specs)
     got_dt = [dt.datetime.fromisoformat(g[0]) for g in got]
     if mode == "dst":
         # labels inside the skipped / repeated hours are not judged
@@ -448,7 +455,13 @@ def run_part_b(case):
         got_dt = [got_dt[i] for i in keep]
         exp = [e for e in exp if not in_dst_hole(e)]
     tol = 0.25 if now_based else 2e-6
-    desc = f"{strs}+{extra} start={state['startup_local']} window={win}s legacy={case['legacy']}"
+    if now_based and "startup" in extra and exp and abs((exp[0] - t0).total_seconds()) < tol and len(got_dt) == len(exp) - 1 and (not got_dt or abs((got_dt[0] - exp[0]).total_seconds()) > tol):
+        # An instant equal to `now` is not "strictly after the current time" of the trigger's first evaluation, which is all
+        # the statement promises; pyscript fires it through a special case that needs the evaluation time to still equal the
+        # start-up time.  With an explicit "startup" entry the legacy loop spends its first pass on that entry and reads the
+        # clock again afterwards, so whether the `now` instant also fires depends on the clock having moved: not judged.
+        exp = exp[1:]
+    desc = f"{strs}+{extra} start={state['startup_local']} window={win}s legacy={case['legacy']} skew={skew}"
     if len(got_dt) != len(exp):
         # an instant within the tolerance of the window end may or may not be inside
         if not (abs(len(got_dt) - len(exp)) == 1 and ((exp and abs((exp[-1] - state["end_local"]).total_seconds()) < 0.5) or (got_dt and abs((got_dt[-1] - state["end_local"]).total_seconds()) < 0.5))):
@@ -465,9 +478,12 @@ def run_part_b(case):
             break
     # each run happens at its trigger_time (the run is started within 10 ms virtual of the instant)
     for (tt, t_run), g in zip(got, got_dt):
-        run_utc = w.clock.base + dt.timedelta(seconds=t_run)
+        run_utc = w.clock.utc_at(t_run)
         label_utc = w.clock.utc_of_local_naive(g)
-        if abs((run_utc - label_utc).total_seconds()) > 0.05:
+        late = (run_utc - label_utc).total_seconds()
+        # a wall clock that runs ahead of the timers (skew < 0) makes every wake-up late by up to |skew| x the sleep; only
+        # "never early" can be demanded then
+        if late < -0.05 or late > 0.05 + max(0.0, -skew) * win:
             viol.append({"mech": "run_not_at_trigger_time", "msg": f"{desc}: trigger_time {g} (= {label_utc} UTC) but ran at {run_utc} UTC"})
             break
     if n_startup != (1 if "startup" in extra else 0):
@@ -483,9 +499,9 @@ def run_part_b(case):
         "verdict": "violated" if viol else "held",
         "violations": viol,
         "nontrivial": len(exp) >= 3,
-        "obs": {"running_windows": 1, "runs_observed": len(recs), "instants_expected": len(exp), "legacy_cases": int(case["legacy"]), "default_cases": int(not case["legacy"])},
+        "obs": {"running_windows": 1, "runs_observed": len(recs), "instants_expected": len(exp), "legacy_cases": int(case["legacy"]), "default_cases": int(not case["legacy"]), "skewed_clock_windows": int(skew != 0.0)},
         "cover": {"running_spec_forms": [s["k"] for s in specs] + extra + ["mode:" + mode]},
-        "sig": f"{len(exp)}|{specs[0]['k']}|{case['legacy']}|{mode}",
+        "sig": f"{len(exp)}|{specs[0]['k']}|{case['legacy']}|{mode}|{skew}",
     }
 
 
